@@ -118,6 +118,7 @@ func (fx *Fx) runDefers(st *State, base int) []*State {
 	}
 	d := st.defers[len(st.defers)-1]
 	st.defers = st.defers[:len(st.defers)-1]
+	st.recoverDepth = fx.depth + 1 // recover() is effective only when called directly by the deferred function
 	var out []*State
 	for _, r := range fx.evalCallMulti(st, d.Call) {
 		if r.kind == kPanic {
@@ -130,7 +131,7 @@ func (fx *Fx) runDefers(st *State, base int) []*State {
 
 func (fx *Fx) recoverCall(st *State) Val {
 	t := types.NewInterfaceType(nil, nil)
-	if st.panicVal == "" {
+	if st.panicVal == "" || fx.depth != st.recoverDepth {
 		return Val{T: t, S: SRef, X: "nil"}
 	}
 	v := Val{T: t, S: SRef, X: st.panicVal}
@@ -222,8 +223,9 @@ func (fx *Fx) assumeChanInvariantExpr(st *State, chanExpr ast.Expr, v Val, ok st
 	}
 	saved, had := st.bound[ci.Var]
 	st.bound[ci.Var] = v
+	st.assume(ok) // channels with a declared message invariant are never closed: every receive gets a sent value
 	for _, cl := range ci.Recv {
-		st.assume(implies(ok, fx.specEval(st, fx.pkg, nil, nil, cl.Expr)))
+		st.assume(fx.specEval(st, fx.pkg, nil, nil, cl.Expr))
 	}
 	fx.assumed["channel message invariant of "+exprText(chanExpr)+": assumed at the receive; its sender-side part is an obligation at every send"] = true
 	if had {
